@@ -9,6 +9,7 @@
 #include <cmath>
 #include <limits>
 #include <sstream>
+#include <iomanip>
 #include <string>
 #include <type_traits>
 #include <functional>
@@ -97,11 +98,17 @@ template <typename V> std::string showv(const V &v)
   return s + ")";
 }
 
+// the padded 3-component shape carries a fourth lane that is not a component: leave something in it (as after a
+// memcpy from a float4 buffer) so that an operation that lets the padding lane into a result is visible
+template <typename V> void dirtyPadding(V &, int) {}
+template <typename T> void dirtyPadding(vec_t<T, 3, true> &v, int base) { v.padding_ = gen<T>(base + 5); }
+
 template <typename V> V genv(int base)
 {
   V v;
   for (int i = 0; i < comps<V>::N; i++)
     set(v, i, gen<typename V::scalar_t>(base + i));
+  dirtyPadding(v, base);
   return v;
 }
 
@@ -247,6 +254,16 @@ template <typename V> void family()
     e << ")";
     checked++;
     if (o.str() != e.str()) { failed++; printf("FAIL type=%s n=%d op=stream got=%s expected=%s\n", tname<T>(), N, o.str().c_str(), e.str().c_str()); }
+    // the same with formatting state left on the stream by earlier output: the components are streamed on that stream
+    std::ostringstream o2, e2;
+    o2 << std::hex << std::showpos << std::setprecision(3) << std::scientific;
+    e2 << std::hex << std::showpos << std::setprecision(3) << std::scientific;
+    o2 << a;
+    e2 << "(";
+    for (int i = 0; i < N; i++) e2 << (i ? "," : "") << get(a, i);
+    e2 << ")";
+    checked++;
+    if (o2.str() != e2.str()) { failed++; printf("FAIL type=%s n=%d op=stream_fmt got=%s expected=%s\n", tname<T>(), N, o2.str().c_str(), e2.str().c_str()); }
   }
   extra<V>::run(a, b);
 }
